@@ -8,7 +8,10 @@ from .. import engine, gen, lib, model
 
 ANSI = re.compile(r"\x1b\[[0-9;]*m")
 PRINTABLE = set(string.digits + string.ascii_letters + string.punctuation + " ")
-SPELLINGS = {"little": "little", "big": "big", "network": "big", "<": "little", ">": "big", "!": "big"}
+import sys as _sys
+
+SPELLINGS = {"little": "little", "big": "big", "network": "big", "<": "little", ">": "big", "!": "big",
+             "@": _sys.byteorder, "=": _sys.byteorder}   # the native spellings mean the host's order
 
 
 def ref_hexdump(data, offset=0, prefix=""):
@@ -194,6 +197,34 @@ def dumpstructs(ctx, n):
                               engine.case_detail(case, cfg=cfgd, data=inp, color=color, error=lib.exc_sig(e)))
 
 
+def repeated_discard_members(ctx):
+    """A structure may declare several members named `_` (the name only allows repetition): the listing has one line per
+    declared member, in order, and the class form shows the bytes it was given."""
+    from dissect.cstruct import dumpstruct
+
+    text = "struct H { char magic[2]; uint8 _; uint16 length; uint8 _; uint8 kind; uint8 _; uint8 flags; };"
+    data = bytes([0x4D, 0x5A, 1, 2, 3, 4, 5, 6, 7])
+    for compiled in (True, False):
+        for color in (True, False):
+            ctx.evaluation(("repeated-discard", compiled, color))
+            ctx.cell("dumpstruct:repeated-discard-members")
+            det = {"text": text, "compiled": compiled, "color": color, "workload": "repeated-discard"}
+            try:
+                cs = lib.load(text, "<", False, compiled)
+                outs = {"class": ANSI.sub("", dumpstruct(cs.H, data, color=color, output="string")),
+                        "instance": ANSI.sub("", dumpstruct(cs.H(data), color=color, output="string"))}
+            except Exception as e:  # noqa: BLE001
+                ctx.violation("dumpstruct", f"dumpstruct-raises:{type(e).__name__}", dict(det, error=lib.exc_sig(e)))
+                continue
+            want = ["magic", "_", "length", "_", "kind", "_", "flags"]
+            for form, out in outs.items():
+                listed = re.findall(r"^- (\w+): ", out, re.M)
+                if listed != want or (form == "class" and ref_hexdump(data) not in out):
+                    ctx.violation("dumpstruct", "dumpstruct-does-not-list-every-field", dict(det, form=form, listed=listed, want=want, got=out))
+                else:
+                    ctx.event("repeated_discard_members_checked")
+
+
 def dumpstruct_after_assignment(ctx):
     """dumpstruct shows the structure as it *is*: after fields of a parsed instance were assigned, the listing shows
     the new values next to the hex dump of the new bytes (not what was recorded when it was parsed)."""
@@ -318,6 +349,21 @@ def packs(ctx, rng, n):
 
     fixed = {8: (utils.p8, utils.u8), 16: (utils.p16, utils.u16), 32: (utils.p32, utils.u32), 64: (utils.p64, utils.u64)}
     swaps = {16: utils.swap16, 32: utils.swap32, 64: utils.swap64}
+    # every spelling with every width that has a helper (and one that has none), boundary values
+    for sp, order in SPELLINGS.items():
+        for bits in (8, 16, 24, 32, 64):
+            for v in (0, 1, (1 << bits) - 1, 1 << (bits - 1), -1, -(1 << (bits - 1))):
+                ctx.evaluation(("pack-sweep", bits, v, sp))
+                ctx.cell(f"pack:{sp}")
+                want = v.to_bytes(bits // 8, order, signed=v < 0)
+                try:
+                    got = (utils.pack(v, bits, sp), utils.unpack(want, bits, sp, sign=v < 0))
+                    if bits in fixed:
+                        got += (fixed[bits][0](v, sp), fixed[bits][1](want, sp, v < 0))
+                except Exception as e:  # noqa: BLE001
+                    got = ("raises", type(e).__name__)
+                if got != (want, v) + ((want, v) if bits in fixed else ()):
+                    ctx.violation("pack", "pack-unpack-differ-from-twos-complement", {"value": v, "bits": bits, "endian": sp, "got": repr(got), "want": want.hex()})
     for i in range(n):
         bits = rng.choice([8, 16, 24, 32, 40, 48, 64, 128, 256])
         signed = rng.random() < 0.5
@@ -429,14 +475,16 @@ def run(ctx):
         dumpstruct_forms(ctx)
     if ctx.shard == 1:
         dumpstruct_after_assignment(ctx)
+        repeated_discard_members(ctx)
 
 
 def replay(ctx, detail):
     print("record:", {k: v for k, v in detail.items() if k != "ast"})
     from dissect.cstruct import dumpstruct, hexdump
 
-    if detail.get("workload") == "dumpstruct-after-assignment":
+    if detail.get("workload") in ("dumpstruct-after-assignment", "repeated-discard"):
         dumpstruct_after_assignment(ctx)
+        repeated_discard_members(ctx)
         return
     if detail.get("workload") == "dumpstruct-forms":
         dumpstruct_forms(ctx)
